@@ -33,6 +33,7 @@ type Exec struct {
 	variants  map[string][]*Contract
 	reachLogMemo map[*ssa.Function][]string
 	unknownCode  bool
+	lastAxiomPattern string
 	ghosts   map[string]*GhostFunc
 
 	checks   []*Check
